@@ -124,13 +124,24 @@ def showObs : Obs → String
   | .closed t => s!"closed:{t}"
   | .rc r _ t1 n => s!"rc:{match r with | .ok => "ok" | .refused => "refused" | .timedOut => "timedout"}:{t1}:{n}"
 
+/-- classification for whole executions: negative responses are exactly three bytes and name the request's service -/
+def clsS (d : Bytes) : Client.Ev :=
+  match d with
+  | [0x7F, 0x22, 0x78] => .pending
+  | [0x7F, 0x22, 0x21] => .busy
+  | [0x7F, 0x22, _] => .negFinal
+  | 0x7F :: _ => .malformed
+  | 0x62 :: 0xF1 :: 0x90 :: _ => .posFinal
+  | _ => .mismatch
+
 open Gallia.LossSys in
 def runS {Q : Type} (P : SProto Q) (mr : Nat) (evs : List SEv) : String :=
   let c : LossSys.CCfg := { maxRetry := mr, lim := Client.Limits.std }
-  let (s, obs) := LossSys.run P cls c (evs.length + 1) (Sys.init P) evs []
+  let (s, obs) := LossSys.run P clsS c (evs.length + 1) (Sys.init P) evs []
   let wire := if s.wire.isEmpty then "-" else ",".intercalate (s.wire.map fun w => s!"{w.1}@{w.2.1}:{hexOrDash w.2.2}")
   joinSp (obs.map showObs ++ ["wire", wire, "refused", toString s.refusals, "conns", toString s.nconn, "ties", toString s.ties])
 
+open Gallia.LossSys in
 open Gallia.LossSys in
 def stepS (tr : String) (mr : String) (toks : List String) : String :=
   match mr.toNat?, toks.mapM parseSEv with
